@@ -11,7 +11,7 @@ COQ_RUN = "run06"
 COQ_CASE_TYPE = "case06"
 SHARD = 150
 RULE = ("every helper of ebb_motion.py (function style) and ebb3_motion.py / EBB3.var_write (class style) called against an all-acknowledging fake port (acknowledging at once, after 1-3 timed-out reads, or after a blank line), "
-        "with positional and with keyword arguments, alone and (class style) after 1-3 earlier helper calls on the same object incl. disconnect/reattach, a port replaced by assignment, and every ordered pair of single-motor requests, with arguments from {0, +-1, 750, 751, 1500, 2^31-1, -2^31, random}, optional arguments absent / zero / non-zero, motor resolutions -2..8, pauses "
+        "with positional and with keyword arguments, (function style) also right after the same request made with equal-valued floats / booleans, alone and (class style) after 1-3 earlier helper calls on the same object incl. disconnect/reattach, a port replaced by assignment, and every ordered pair of single-motor requests, with arguments from {0, +-1, 750, 751, 1500, 2^31-1, -2^31, random}, optional arguments absent / zero / non-zero, motor resolutions -2..8, pauses "
         "-5..4000 incl. the chunk boundaries; the bytes written (every line must end in exactly one CR) are compared with the model and with the documented text; "
         "non-trivial = a helper with at least one optional or zero-valued argument, or a pause of more than one chunk")
 TRUSTED = ["the documented command table Spec/EbbDoc.v, transcribed from the docstrings of the repository", "fake port acknowledging every command"]
@@ -88,6 +88,9 @@ def generate(rng, tier):
     for c in cases:
         if not c.get("noport") and "kw" not in c and rng.random() < 0.2: c["kw"] = True; c["family"] += "/keyword"
     for c in cases:
+        if c["h"][0].startswith("L_") and not c.get("noport") and c["h"][0] not in ("L_ServoV",) and rng.random() < 0.3:
+            c["typed_twin"] = rng.choice(["float", "float", "bool"]); c["family"] += "/after-equal-valued-%s-call" % c["typed_twin"]
+    for c in cases:
         if c.get("noport"): continue
         r = rng.random()
         if r < 0.25: c["delay"] = rng.choice([1, 1, 2, 3]); c["family"] += "/slow-ack"
@@ -121,6 +124,14 @@ def run_impl(c):
     if c.get("noport"):
         return _run_noport(k, a, legacy)
     port = AckPort(legacy, c.get("delay", 0), c.get("blank", False), "%d.%d.%d" % tuple(a[:3]) if k == "L_ServoV" else None, "%d,%d" % (a[2], a[3]) if k == "E_MotorsOnQ" else "0,0")
+    if legacy and c.get("typed_twin") and not c.get("_twin_running"):
+        # the same request was made a moment ago with whole-valued floats (or True / False) in place of the integers, on another port:
+        # what was built for that call must not be reused for this one (120 == 120.0 and 0 == False, but their texts differ)
+        conv = (lambda x: (bool(x) if x in (0, 1) and c["typed_twin"] == "bool" else float(x)) if isinstance(x, int) and not isinstance(x, bool) and abs(x) < 2**53 else x)
+        twin = dict(c, h=(k,) + tuple(conv(x) for x in a), _twin_running=True)
+        twin.pop("typed_twin")
+        try: run_impl(twin)
+        except Exception: pass
     if legacy:
         M = ebb_motion
         kw = c.get("kw", False)
